@@ -100,16 +100,21 @@ def formatTime(
 
     @param when: A timestamp.
     @param timeFormat: A time format.
-    @param default: Text to return if C{when} or C{timeFormat} is L{None}.
+    @param default: Text to return if C{when} or C{timeFormat} is L{None}, or
+        if C{when} is not a timestamp that can be formatted.
 
     @return: A formatted time.
     """
     if timeFormat is None or when is None:
         return default
     else:
-        tz = FixedOffsetTimeZone.fromLocalTimeStamp(when)
-        datetime = DateTime.fromtimestamp(when, tz)
-        return str(datetime.strftime(timeFormat))
+        try:
+            tz = FixedOffsetTimeZone.fromLocalTimeStamp(when)
+            datetime = DateTime.fromtimestamp(when, tz)
+            return str(datetime.strftime(timeFormat))
+        except (OverflowError, OSError, ValueError, TypeError):
+            # Not a timestamp, or one the platform cannot represent.
+            return default
 
 
 def formatEventAsClassicLogText(
